@@ -182,8 +182,18 @@ def coq_cval(c):
     return "COther"
 
 
+# Which model integer_divide is compared with.  The exact floor (vfloordiv) everywhere,
+# except inside an operand class that known_findings.json records as a known defect:
+# there the model of sympy's `//` (vfloordiv_impl) is used.  The operand tags select it:
+# `lsym` only matters for class (1), `rsym` only for class (2), and
+# C07_floordiv_impl_pyint proves vfloordiv_impl false false = vfloordiv.
+RECORDED = set()
+
+
 def coq_case(op, va, vb, c):
-    return (f"K {COQ_OP[op]} {'true' if va[2] == 'sym' else 'false'} {'true' if vb[2] == 'sym' else 'false'} "
+    lsym = va[2] == "sym" and QUIRK_CLS in RECORDED
+    rsym = vb[2] == "sym" and TRUNC_CLS in RECORDED
+    return (f"K {COQ_OP[op]} {'true' if lsym else 'false'} {'true' if rsym else 'false'} "
             f"({va[0]}) {va[1]} ({vb[0]}) {vb[1]} {coq_cval(c)}")
 
 
@@ -375,6 +385,11 @@ def run_pairs(env, name, pairs, stats):
         env.proof_broken(f"{name}: correspondence cases failed to evaluate in Coq", logs)
     for i in bad:
         op, va, vb, c = cases[i]
+        if op == "modulo" and vb[0] == 0 and c[0] in ("int", "rat"):
+            # outside the property: the model records today's ZeroDivisionError; another
+            # exact number here is a behaviour change, not a violation (reported as a note)
+            stats["modulo_by_zero_drift"] += 1
+            continue
         env.disagree(f"arith:{op}", {"op": op, "lhs": show(va), "rhs": show(vb)}, "(model disagrees)", list(c))
     env.count(n_eval, keys)
     stats["cases"][name] = len(cases)
@@ -422,6 +437,13 @@ def run(env):
     V.import_repo()
     import vyxal.elements  # noqa: F401  (imported before the workers fork)
     import vyxal.context  # noqa: F401
+    RECORDED.clear()
+    for k in env.known:
+        if k.get("status") == "known":
+            RECORDED.update(x for x in [k.get("class")] + list(k.get("classes", [])) if x in (QUIRK_CLS, TRUNC_CLS))
+    env.note("floordiv_model", "integer_divide is compared with the exact floor (vfloordiv)"
+             + ("".join(f"; inside the recorded class {c} with the model of sympy's // (vfloordiv_impl)" for c in sorted(RECORDED))
+                if RECORDED else " everywhere (no defect class of integer_divide is recorded in known_findings.json)"))
     pmax, qmax = env.budget((12, 6), (16, 8))
     n_big = env.budget(2500, 25000)
     n_trees = env.budget(3000, 30000)
@@ -436,7 +458,7 @@ def run(env):
         "Non-trivial = both operands non-zero and the result is a number different from both operands (trees: depth >= 2 and non-zero value); distinct by operator, operands and representation.")
     stats = {"result_kind": collections.Counter(), "operand_kind": collections.Counter(), "modulo_by_zero": collections.Counter(),
              "tree_depth": collections.Counter(), "tree_result_kind": collections.Counter(), "trees_with_zero_divisor": 0,
-             "quirk": collections.Counter(), "cases": {}}
+             "quirk": collections.Counter(), "cases": {}, "modulo_by_zero_drift": 0}
     vals = box(pmax, qmax)
     small = [(a, b) for a in vals for b in vals]
     cases = run_pairs(env, "box", small, stats)
@@ -454,6 +476,9 @@ def run(env):
     env.note("tree_result_kind_distribution", dict(stats["tree_result_kind"]))
     env.note("trees_with_a_zero_divisor", stats["trees_with_zero_divisor"])
     env.note("failing_inputs_in_recorded_floordiv_classes", dict(stats["quirk"]))
+    if stats["modulo_by_zero_drift"]:
+        env.note("modulo_by_zero_no_longer_raises", f"{stats['modulo_by_zero_drift']} modulo-by-zero calls returned a number where Model/Arith.v (vmod_impl) records ZeroDivisionError; "
+                 "outside the property, not counted as a disagreement: update vmod_impl")
     env.note("modulo_by_zero", "outside the property (it names only / and floor division by zero): the implementation raises ZeroDivisionError for every "
              "operand representation; the model says CZeroDiv and the correspondence checks it; the theorems about vmod carry b <> 0")
     if cases:
